@@ -1,10 +1,20 @@
 import NdnModel.Gate
+import NdnModel.GateTimed
 import NdnModel.Drv.C03
 /-  Line protocol for C05:
     `C05 h <v1|v2> <history>`                      the PIT model, same history syntax and answer as C03
     `C05 g <v1|v2> <dflt> <params><sig><digestOk> <route>`   the incoming-Interest gate
         bits are 0/1, route ::= none | nocb | h:~ | h:<verdict>
-        answer: `ok <acts>` with acts a string over d (digest check) v (validator) h (handler), `-` if empty -/
+        answer: `ok <acts>` with acts a string over d (digest check) v (validator) h (handler), `-` if empty
+    `C05 t <v1|v2> <av> <ev>;<ev>;…`               the timed gate (`.` = empty history); `av` = id of the legacy
+        application-wide validator
+        ev ::= a:<name>:<hid|~>:<vid|~>  attach      | x:<name>  detach      | i:<name>:<params><sig><digestOk>  arrive
+             | s:<i>  the task of Interest i starts   | d:<i>:<verdict>  its validator answers   | t:<i>  deadline
+        name ::= c1.c2.…  (`~` = empty; a component is one number 0..255)
+        answer: `ok <res>|<seg>/<seg>/…`; res: one letter per attach / detach (o ok, V ValueError, K KeyError, X other),
+        `-` if there is none; one segment per event, holding what that event made observable, comma-separated:
+        d<i> (digest check of Interest i) v<i>.<vid> (validator called) h<i>.<hid> (handler called)
+        E<i>.<class> (its submit_interest task died) -/
 namespace Ndn.Drv.C05
 open Ndn Ndn.Pit Ndn.Gate
 
@@ -25,9 +35,59 @@ def parseBits (s : String) : Option IntPkt :=
 def showAct : Act → String
   | .digestCheck => "d" | .validate => "v" | .handle => "h"
 
+def parseTName (s : String) : Option GateTimed.Name :=
+  if s == "~" then some []
+  else (s.splitOn ".").mapM fun c => do
+    let k ← c.toNat?
+    if k < 256 then some [UInt8.ofNat k] else none
+
+def parseTEv (s : String) : Option GateTimed.Ev :=
+  match s.splitOn ":" with
+  | ["a", nm, h, v] => do pure (.attach (← parseTName nm) (← Ndn.Drv.C03.parseOpt h) (← Ndn.Drv.C03.parseOpt v))
+  | ["x", nm] => do pure (.detach (← parseTName nm))
+  | ["i", nm, bits] => do pure (.arrive (← parseTName nm) (← parseBits bits))
+  | ["s", i] => do pure (.start (← i.toNat?))
+  | ["d", i, v] => do pure (.done (← i.toNat?) (← Ndn.Drv.C03.parseVerdict v))
+  | ["t", i] => do pure (.deadline (← i.toNat?))
+  | _ => none
+
+def showRes : Fib.Res → String
+  | .ok => "o"
+  | .err .valueError => "V"
+  | .err .keyError => "K"
+  | .err _ => "X"
+
+def showObs : GateTimed.Obs → String
+  | .digest i => s!"d{i}"
+  | .validate i vid => s!"v{i}.{vid}"
+  | .handle i h => s!"h{i}.{h}"
+  | .died i .timeoutError => s!"E{i}.TimeoutError"
+  | .died i .scripted => s!"E{i}.ScriptedError"
+  | .died i .typeError => s!"E{i}.TypeError"
+
+/-- what each event of the history adds to the log -/
+def segments (fe : FrontEnd) (av : Nat) : GateTimed.St → List GateTimed.Ev → List (List GateTimed.Obs)
+  | _, [] => []
+  | s, e :: r =>
+    let s' := GateTimed.step fe av s e
+    s'.log.drop s.log.length :: segments fe av s' r
+
+def handleTimed (fe av evs : String) : String :=
+  if !GateTimed.tableOk then "bad-table" else
+  let fe? : Option FrontEnd := if fe == "v1" then some .v1 else if fe == "v2" then some .v2 else none
+  let evs? : Option (List GateTimed.Ev) := if evs == "." then some [] else (evs.splitOn ";").mapM parseTEv
+  match fe?, av.toNat?, evs? with
+  | some fe, some av, some evs =>
+    let s := GateTimed.run fe av evs
+    let res := String.join (s.res.map showRes)
+    "ok " ++ (if res.isEmpty then "-" else res) ++ "|" ++
+      "/".intercalate ((segments fe av {} evs).map fun seg => ",".intercalate (seg.map showObs))
+  | _, _, _ => "bad-op"
+
 def handle (args : List String) : String :=
   match args with
   | ["h", fe, evs] => Ndn.Drv.C03.handle [fe, evs]
+  | ["t", fe, av, evs] => handleTimed fe av evs
   | ["g", fe, dflt, bits, route] =>
     if !Gate.tableOk then "bad-table" else
     let fe? : Option FrontEnd := if fe == "v1" then some .v1 else if fe == "v2" then some .v2 else none
